@@ -8,10 +8,12 @@ Open Scope N_scope.
 
 (* handler configuration; the index set is given by the property each index keys on *)
 Record ccfg := CC {
-  cc_pkg : pkg; cc_type : rtype; cc_ty : ty; cc_def : option res; cc_idx : option (list key)
+  cc_pkg : pkg; cc_type : rtype; cc_ty : ty; cc_def : option res; cc_idx : option (list key);
+  cc_map : bool                 (* resbadger.Model.WithMap(std_map) *)
 }.
 Definition to_cfg (x : ccfg) : cfg :=
-  Cfg (cc_pkg x) (cc_type x) (cc_ty x) (cc_def x) (option_map (map field_key) (cc_idx x)).
+  Cfg (cc_pkg x) (cc_type x) (cc_ty x) (cc_def x) (option_map (map field_key) (cc_idx x))
+      (if cc_map x then Some std_map else None).
 
 Record sobs := SO {
   so_ev : event;
@@ -21,7 +23,9 @@ Record sobs := SO {
   g_get : gres;                 (* response to a get request sent afterwards *)
   g_value : gres;               (* Resource.Value() afterwards *)
   g_stored : option res;        (* raw database entry afterwards *)
-  g_idx : list ent              (* index entries of the resource afterwards *)
+  g_idx : list ent;             (* index entries of the resource afterwards *)
+  g_icalls : list icall;        (* index listener calls (Listen / ListenIndex) during the call *)
+  g_fetch : list (N * N)        (* per index: how often IndexQuery.FetchCollection (no prefix, no limit) lists the resource *)
 }.
 Record lcase := LC {
   lc_cfg : ccfg;
@@ -31,7 +35,10 @@ Record lcase := LC {
   lc_steps : list sobs;
   lc_reget : gres;              (* get after closing and reopening database and service *)
   lc_restored : option res;
-  lc_reidx : list ent
+  lc_reidx : list ent;
+  (* Model.RebuildIndexes on a database holding this resource only, after the events:
+     (Type option set, outcome 0 ok / 1 error / 2 panic, index entries afterwards) *)
+  lc_rebuild : option (bool * N * list ent)
 }.
 
 (* ---- comparisons ---- *)
@@ -65,9 +72,26 @@ Definition otl {A} (o : option A) : list A := match o with Some x => [x] | None 
 Definition ents_eqb (a b : list ent) : bool :=
   forallb (fun e => existsb (ent_eqb e) b) a && forallb (fun e => existsb (ent_eqb e) a) b.
 
+Definition oreqb (a b : option res) : bool := veqb a b.
+Definition iceqb (a b : icall) : bool :=
+  match a, b with
+  | IC n b1 a1, IC m b2 a2 =>
+    match n, m with Some x, Some y => x =? y | None, None => true | _, _ => false end && oreqb b1 b2 && oreqb a1 a2
+  end.
+Definition fetch_counts (c : cfg) (l : list ent) : list (N * N) :=
+  match idxs c with
+  | None => []
+  | Some ks => map (fun i => (N.of_nat i, len (filter (fun e => fst e =? N.of_nat i) l))) (seq 0 (length ks))
+  end.
+Definition nn_eqb (a b : list (N * N)) : bool :=
+  list_eqb (fun x y => (fst x =? fst y) && (snd x =? snd y)) a b.
+Definition rb_code (r : rbres) : N := match r with RbOk _ => 0 | RbErr => 1 | RbPanic => 2 end.
+Definition rb_ents (r : rbres) : list ent := match r with RbOk l => l | _ => [] end.
+
 (* ---- correspondence.  field codes:
    1 first get / Value   2 panicked   3 published   4 listener calls   5 get   6 Value
-   7 stored entry        8 index entries   9 get after reopen   10 stored / index entries after reopen *)
+   7 stored entry        8 index entries   9 get after reopen   10 stored / index entries after reopen
+   11 index listener calls   12 FetchCollection   13 RebuildIndexes outcome / entries *)
 Fixpoint check_steps (c : cfg) (s : state) (l : list sobs) : list N * state :=
   match l with
   | [] => ([], s)
@@ -81,7 +105,9 @@ Fixpoint check_steps (c : cfg) (s : state) (l : list sobs) : list N * state :=
       (if geqb (get_resource c s') (g_get o) then [] else [5]) ++
       (if geqb (value_resource c s') (g_value o) then [] else [6]) ++
       (if veqb (st_val s') (g_stored o) then [] else [7]) ++
-      (if ents_eqb (st_idx s') (g_idx o) then [] else [8]) in
+      (if ents_eqb (st_idx s') (g_idx o) then [] else [8]) ++
+      (if list_eqb iceqb (idx_calls c s (so_ev o)) (g_icalls o) then [] else [11]) ++
+      (if nn_eqb (fetch_counts c (st_idx s')) (g_fetch o) then [] else [12]) in
     let (r, sf) := check_steps c s' l' in (d ++ r, sf)
   end.
 Definition check_case (x : lcase) : list N :=
@@ -91,7 +117,13 @@ Definition check_case (x : lcase) : list N :=
   let (r, sf) := check_steps c s0 (lc_steps x) in
   r ++
   (if geqb (get_resource c (reopen sf)) (lc_reget x) then [] else [9]) ++
-  (if veqb (st_val (reopen sf)) (lc_restored x) && ents_eqb (st_idx (reopen sf)) (lc_reidx x) then [] else [10]).
+  (if veqb (st_val (reopen sf)) (lc_restored x) && ents_eqb (st_idx (reopen sf)) (lc_reidx x) then [] else [10]) ++
+  match lc_rebuild x with
+  | None => []
+  | Some (ts, k, l) =>
+    let r := rebuild c ts sf in
+    if (rb_code r =? k) && ents_eqb (rb_ents r) l then [] else [13]
+  end.
 
 (* ---- the property on the implementation's outputs only.  codes:
    1 a published event is not applicable to the view a client folded so far, or the folded view differs from the next get
@@ -104,6 +136,8 @@ Definition check_case (x : lcase) : list N :=
    7 published without calling the listener or the reverse, more than one message, or the listener saw other new values
    (8, 9 unused: a delete / an add published for a resource reported as not found is NOT a violation of C20:
     the served value still equals the fold; the harness only tags such cases)
+   12 the index entries after Model.RebuildIndexes are not the keys of the stored value
+   13 an index listener was not called with (previous value, new value) of the event
    10 index entries differ from the keys of the stored value (handler without Default, no empty keys in the case,
       Type interface-valued or all events of the handler's Type) *)
 Definition view_of_g (g : gres) : option view :=
@@ -145,11 +179,27 @@ Definition pub_call_ok (p : list pubmsg) (l : list lcall) (e : event) : bool :=
 
 (* [cl]: the view a client has folded from the first get and the published events
    (re-synchronised with the get after a reported difference); [prev]: the previous get *)
+(* what the fold is compared with: the get response; for a handler with a Map callback (get serves the
+   mapped value by design) the stored entry, else the Default *)
+Definition is_mapped (c : cfg) : bool := match maps c with Some _ => true | None => false end.
+Definition now_view (c : cfg) (g : gres) (st : option res) : option view :=
+  if is_mapped c then Some (served (c_def c) st) else view_of_g g.
+(* index listener calls: a change is announced with (previously served value, new stored value), a create
+   with (nothing, the data), a delete with (previously stored value, nothing) *)
+Definition icall_ok (pv : view) (pstored : option res) (o : sobs) (x : icall) : bool :=
+  match x, so_ev o with
+  | IC _ b a, EChange _ => veqb b pv && veqb a (g_stored o)
+  | IC _ b a, ECreate d => veqb b None && veqb a (Some d)
+  | IC _ b a, EDelete => veqb b pstored && veqb a None
+  | _, _ => false
+  end.
+Definition loose_ty (c : cfg) (typed : bool) : bool := typed || match c_ty c with TyAny => true | _ => false end.
+
 Fixpoint viol_steps (c : cfg) (typed : bool) (cl prev : option view) (pstored : option res) (l : list sobs) : list N :=
   match l with
   | [] => []
   | o :: l' =>
-    let now := view_of_g (g_get o) in
+    let now := now_view c (g_get o) (g_stored o) in
     let cl' :=
       match cl, g_pub o with
       | Some cv, p :: _ => spec_step (c_def c) cv (sev_of_pub p (so_ev o))
@@ -169,11 +219,12 @@ Fixpoint viol_steps (c : cfg) (typed : bool) (cl prev : option view) (pstored : 
          end) ++
         (if forallb (call_ok typed pv pstored) (g_call o) then [] else [4]) ++
         (if unappliable pv (so_ev o) &&
-            negb (is_nil (g_pub o) && is_nil (g_call o) && veqb pstored (g_stored o)) then [5] else [])
+            negb (is_nil (g_pub o) && is_nil (g_call o) && veqb pstored (g_stored o)) then [5] else []) ++
+        (if loose_ty c typed && negb (forallb (icall_ok pv pstored o) (g_icalls o)) then [13] else [])
       | Some _, None => [1]          (* the get request failed / served something that is no resource value *)
       | _, _ => []
       end ++
-      (if typed && negb (geqb (g_value o) (g_get o)) then [6] else []) ++
+      (if typed && negb (is_mapped c) && negb (geqb (g_value o) (g_get o)) then [6] else []) ++
       (if pub_call_ok (g_pub o) (g_call o) (so_ev o) then [] else [7]) in
     let ok := match cl', now with Some a, Some b => veqb a b | _, _ => false end in
     d ++ viol_steps c typed (if ok then cl' else now) now (g_stored o) l'
@@ -199,11 +250,20 @@ Fixpoint last_obs (l : list sobs) (g : gres) (st : option res) (ix : list ent) :
 Definition viol_case (x : lcase) : list N :=
   let c := to_cfg (lc_cfg x) in
   let typed := well_typed c (St (lc_init x) []) (map so_ev (lc_steps x)) in
-  (if typed && negb (geqb (lc_value0 x) (lc_get0 x)) then [6] else []) ++
-  viol_steps c typed (view_of_g (lc_get0 x)) (view_of_g (lc_get0 x)) (lc_init x) (lc_steps x) ++
+  let v0 := now_view c (lc_get0 x) (lc_init x) in
+  (if typed && negb (is_mapped c) && negb (geqb (lc_value0 x) (lc_get0 x)) then [6] else []) ++
+  viol_steps c typed v0 v0 (lc_init x) (lc_steps x) ++
   viol_idx c typed (lc_steps x) ++
   let '(g, st, ix) := last_obs (lc_steps x) (lc_get0 x) (lc_init x) [] in
-  (if geqb g (lc_reget x) && veqb st (lc_restored x) && ents_eqb ix (lc_reidx x) then [] else [3]).
+  (if geqb g (lc_reget x) && veqb st (lc_restored x) && ents_eqb ix (lc_reidx x) then [] else [3]) ++
+  (* after a successful RebuildIndexes the entries are the keys of the stored value (every index has a
+     non-empty key for it; Type interface-valued or events of the Type) *)
+  match lc_rebuild x, idxs c with
+  | Some (_, 0, l), Some ks =>
+    let want := idx_spec ks st in
+    if loose_ty c typed && (len want =? len ks) && no_empty_key want && negb (ents_eqb l want) then [12] else []
+  | _, _ => []
+  end.
 
 Fixpoint run_idx {A} (f : A -> list N) (i : N) (cs : list A) : list (N * N) :=
   match cs with
